@@ -3,8 +3,16 @@ from vf import Check, Group, CHECKS, GROUPS
 
 I64 = 'I64'
 def LAY(D): return 'boost::multi::layout_t<%d>' % D
-def SUB(D, T='double'):
-    return 'boost::multi::const_subarray<%s,%d,%s*,boost::multi::layout_t<%d>>' % (T, D, T, D)
+import re as _re
+def REC(kind, D, T='double', ptr=None):
+    """record-name pattern (clang prints default template arguments inconsistently)"""
+    ptr = ptr or (T + '*')
+    e = _re.escape
+    return 're:boost::multi::%s<%s,%d(,%s)?(,boost::multi::layout_t<%d>)?>' % (kind, e(T), D, e(ptr), D) if (kind == 'const_subarray' and ptr == 'const' + T + '*') \
+        else 're:boost::multi::%s<%s,%d,%s(,boost::multi::layout_t<%d>)?>' % (kind, e(T), D, e(ptr), D)
+def SUB(D, T='double'): return REC('const_subarray', D, T)
+def MSUB(D, T='double'): return REC('subarray', D, T)
+def CSUB(D, T='double'): return REC('const_subarray', D, T, 'const' + T + '*')
 
 def lp(var, k, fld, pre=''):
     """member `fld` (stride_/offset_/nelems_) of dimension k of the layout reachable as var->pre"""
@@ -24,10 +32,10 @@ def WF(var, D, pre='', f='g_f', n='g_n', zero_based=False):
         if zero_based: cs.append('%s == 0' % F)
     return ' && '.join(cs)
 
-def WF_lemmas(var, D, pre='', f='g_f', n='g_n'):
+def WF_lemmas(var, D, pre='', f='g_f', n='g_n', dims=None):
     """standard lemma instances about the (n_k, f_k, stride_k) triples of a WF view"""
     out = []
-    for k in range(D):
+    for k in (range(D) if dims is None else dims):
         st = lp(var, k, 'stride_', pre)
         F, N = '%s%d' % (f, k), '%s%d' % (n, k)
         out += ['LEMMA_MULDIV(%s,%s)' % (N, st), 'LEMMA_MULDIV(%s,%s)' % (F, st), 'LEMMA_MULREM(%s,%s)' % (N, st),
